@@ -1259,8 +1259,17 @@ def _decide_children(st: ast.stmt, skip_region: bool) -> None:
         h.body = _decisions(h.body)
 
 
+def _untangle(fn: ast.FunctionDef) -> ast.FunctionDef:
+    """rewrites may leave one node object at two places of the tree; steps that rename in place need a proper tree"""
+    ast.fix_missing_locations(fn)
+    new = ast.parse(ast.unparse(fn)).body[0]
+    assert isinstance(new, ast.FunctionDef)
+    return new
+
+
 def _structural_fixpoint(fn: ast.FunctionDef, rounds: int) -> ast.FunctionDef:
     for _ in range(rounds):
+        fn = _untangle(fn)
         before = ast.dump(fn)
         mod = canonicalise(ast.Module(body=[fn], type_ignores=[]))
         fn = mod.body[0]
@@ -1274,6 +1283,7 @@ def _structural_fixpoint(fn: ast.FunctionDef, rounds: int) -> ast.FunctionDef:
         fn.body = s.block(fn.body, True) or [ast.Pass()]
         fn = _Consumers().visit(fn)
         fn = _Exprs().visit(fn)
+        split_webs(fn)
         split_reassignments(fn)
         n = 0
         while inline_pure_locals(fn) and n < 40:
@@ -1291,6 +1301,7 @@ def normalise(fn: ast.FunctionDef, rounds: int = 8) -> ast.FunctionDef:
     fn.body = _decisions(fn.body) or [ast.Pass()]
     ast.fix_missing_locations(fn)
     fn = _structural_fixpoint(fn, rounds)
+    fn = _untangle(fn)
     _alpha(fn)
     return fn
 
@@ -1530,3 +1541,239 @@ def digest_inlined(fn: ast.FunctionDef, table: dict[str, tuple[str, ast.Function
     f2 = inline_helpers(fn, table)
     f3 = inline_helpers(f2, table, 1) if ast.dump(f2) != ast.dump(fn) else f2
     return digest(f3)
+
+
+# ----------------------------------------------------------------------------- live-range splitting (def-use webs)
+def split_webs(fn: ast.FunctionDef) -> bool:
+    """gives every def-use web of a local its own name: `x = a(); use(x); x = b(); use(x)` becomes two variables.  Reaching definitions
+    are computed over the structured statements with over-approximated control flow (break / continue / return are treated as falling
+    through, loops are iterated, handlers see every definition of the try body), which can only merge webs, never split one."""
+    if any(isinstance(x, (ast.Global, ast.Nonlocal)) for x in ast.walk(fn)):
+        return False
+    params = [a.arg for a in [*fn.args.posonlyargs, *fn.args.args, *fn.args.kwonlyargs]]
+    if fn.args.vararg:
+        params.append(fn.args.vararg.arg)
+    if fn.args.kwarg:
+        params.append(fn.args.kwarg.arg)
+    parent: dict[int, int] = {}
+    def_node: dict[int, ast.AST] = {}
+    def_var: dict[int, str] = {}
+    order: dict[int, int] = {}
+    use_defs: list[tuple[ast.Name, frozenset]] = []
+    counter = [0]
+
+    def find(a: int) -> int:
+        while parent[a] != a:
+            parent[a] = parent[parent[a]]
+            a = parent[a]
+        return a
+
+    def union(a: int, b: int) -> None:
+        ra, rb = find(a), find(b)
+        if ra != rb:
+            parent[max(ra, rb)] = min(ra, rb)
+
+    node_def: dict[int, int] = {}
+
+    def new_def(var: str, node: Optional[ast.AST]) -> int:
+        if node is not None and id(node) in node_def:
+            return node_def[id(node)]         # loops are walked several times: one definition per binding occurrence
+        counter[0] += 1
+        d = counter[0]
+        parent[d] = d
+        def_var[d] = var
+        order[d] = counter[0]
+        if node is not None:
+            def_node[d] = node
+            node_def[id(node)] = d
+        return d
+
+    Env = dict
+    env0: dict[str, frozenset] = {p_: frozenset([new_def(p_, None)]) for p_ in params}
+    param_defs = {next(iter(v)) for v in env0.values()}
+    closure_vars: set[str] = set()
+    for x in ast.walk(fn):
+        if isinstance(x, (ast.FunctionDef, ast.Lambda, ast.ListComp, ast.SetComp, ast.DictComp, ast.GeneratorExp)) and x is not fn:
+            for y in ast.walk(x):
+                if isinstance(y, ast.Name):
+                    closure_vars.add(y.id)
+
+    def use(n: ast.Name, env: Env) -> None:
+        ds = env.get(n.id)
+        if ds:
+            use_defs.append((n, ds))
+            first = next(iter(ds))
+            for d in ds:
+                union(first, d)
+
+    def expr(e: Optional[ast.AST], env: Env) -> None:
+        if e is None:
+            return
+        if isinstance(e, (ast.Lambda, ast.ListComp, ast.SetComp, ast.DictComp, ast.GeneratorExp, ast.FunctionDef)):
+            for y in ast.walk(e):
+                if isinstance(y, ast.Name) and isinstance(y.ctx, ast.Load):
+                    use(y, env)
+            return
+        if isinstance(e, ast.NamedExpr):
+            expr(e.value, env)
+            bind(e.target, env)
+            return
+        if isinstance(e, ast.Name):
+            if isinstance(e.ctx, ast.Load):
+                use(e, env)
+            return
+        for ch in ast.iter_child_nodes(e):
+            expr(ch, env)
+
+    def bind(t: ast.AST, env: Env) -> None:
+        if isinstance(t, ast.Name):
+            d = new_def(t.id, t)
+            env[t.id] = frozenset([d])
+        elif isinstance(t, (ast.Tuple, ast.List)):
+            for x in t.elts:
+                bind(x, env)
+        elif isinstance(t, ast.Starred):
+            bind(t.value, env)
+        else:
+            expr(t, env)          # attribute / subscript target: its base is read
+
+    def join(a: Env, b: Env) -> Env:
+        out = dict(a)
+        for k, v in b.items():
+            out[k] = out.get(k, frozenset()) | v
+        return out
+
+    def block(body: list[ast.stmt], env: Env) -> Env:
+        for st in body:
+            env = stmt(st, env)
+        return env
+
+    def stmt(st: ast.stmt, env: Env) -> Env:
+        env = dict(env)
+        if isinstance(st, ast.Assign):
+            expr(st.value, env)
+            for t in st.targets:
+                bind(t, env)
+        elif isinstance(st, ast.AnnAssign):
+            expr(st.value, env)
+            if st.value is not None:
+                bind(st.target, env)
+        elif isinstance(st, ast.AugAssign):
+            expr(st.value, env)
+            if isinstance(st.target, ast.Name):
+                old = env.get(st.target.id, frozenset())
+                d = new_def(st.target.id, st.target)
+                for o in old:
+                    union(d, o)
+                env[st.target.id] = frozenset([d])
+            else:
+                expr(st.target, env)
+        elif isinstance(st, ast.If):
+            expr(st.test, env)
+            env = join(block(st.body, env), block(st.orelse, env))
+        elif isinstance(st, (ast.For, ast.While)):
+            if isinstance(st, ast.For):
+                expr(st.iter, env)
+            e_in = env
+            for _ in range(3):
+                e_loop = dict(e_in)
+                if isinstance(st, ast.For):
+                    bind(st.target, e_loop)
+                else:
+                    expr(st.test, e_loop)
+                e_after = block(st.body, e_loop)
+                e_in = join(e_in, e_after)
+            env = join(e_in, block(st.orelse, e_in))
+        elif isinstance(st, ast.With):
+            for it in st.items:
+                expr(it.context_expr, env)
+                if it.optional_vars is not None:
+                    bind(it.optional_vars, env)
+            env = block(st.body, env)
+        elif isinstance(st, ast.Try):
+            e_body = block(st.body, env)
+            e_mid = join(env, e_body)
+            outs = [block(st.orelse, e_body)]
+            for h in st.handlers:
+                eh = dict(e_mid)
+                if h.name:
+                    d = new_def(h.name, None)
+                    eh[h.name] = frozenset([d])
+                expr(h.type, eh)
+                outs.append(block(h.body, eh))
+            e = outs[0]
+            for o in outs[1:]:
+                e = join(e, o)
+            env = block(st.finalbody, join(e, e_mid)) if st.finalbody else e
+        elif isinstance(st, ast.Delete):
+            for t in st.targets:
+                if isinstance(t, ast.Name):
+                    use(ast.Name(id=t.id, ctx=ast.Load()), env)
+                    old = env.get(t.id, frozenset())
+                    d = new_def(t.id, t)
+                    for o in old:
+                        union(d, o)
+                    env[t.id] = frozenset([d])
+                else:
+                    expr(t, env)
+        elif isinstance(st, (ast.FunctionDef, ast.ClassDef)):
+            expr(st, env) if isinstance(st, ast.FunctionDef) else None
+            d = new_def(st.name, None)
+            env[st.name] = frozenset([d])
+        elif isinstance(st, ast.Match):
+            expr(st.subject, env)
+            outs = []
+            for c in st.cases:
+                ec = dict(env)
+                for y in ast.walk(c.pattern):
+                    nm = getattr(y, 'name', None)
+                    if isinstance(y, (ast.MatchAs, ast.MatchStar)) and isinstance(nm, str):
+                        d = new_def(nm, None)
+                        ec[nm] = frozenset([d])
+                expr(c.guard, ec)
+                outs.append(block(c.body, ec))
+            e = env
+            for o in outs:
+                e = join(e, o)
+            env = e
+        else:
+            for ch in ast.iter_child_nodes(st):
+                if isinstance(ch, ast.expr):
+                    expr(ch, env)
+        return env
+
+    block(fn.body, env0)
+    # variables captured by nested scopes, or bound by constructs without a node (handlers, patterns, nested defs): one web
+    by_var: dict[str, list[int]] = {}
+    for d, v in def_var.items():
+        by_var.setdefault(v, []).append(d)
+    for v, ds in by_var.items():
+        if v in closure_vars or any(d not in def_node and d not in param_defs for d in ds):
+            for d in ds[1:]:
+                union(ds[0], d)
+    renamed = False
+    for v, ds in by_var.items():
+        roots = sorted({find(d) for d in ds}, key=lambda r: min(order[d] for d in ds if find(d) == r))
+        if len(roots) < 2:
+            continue
+        keep = next((r for r in roots if any(d in param_defs for d in ds if find(d) == r)), roots[0])
+        names = {}
+        k = 0
+        for r in roots:
+            if r == keep:
+                names[r] = v
+            else:
+                k += 1
+                names[r] = f'{v}_w{k}'
+        for d in ds:
+            node = def_node.get(d)
+            if isinstance(node, ast.Name) and names[find(d)] != v:
+                node.id = names[find(d)]
+                renamed = True
+        for n, dset in use_defs:
+            if n.id == v:
+                r = find(next(iter(dset)))
+                if names.get(r, v) != v:
+                    n.id = names[r]
+                    renamed = True
+    return renamed
